@@ -228,6 +228,34 @@ def _work_aligned(task) -> core.Part:
     return p
 
 
+def _work_sweep(task) -> core.Part:
+    """Frames covering every octet value in every check-sequence position and special 16-bit HCS/FCS values (0000, FFFF,
+    flag/escape pairs), alone and after long periodic noise: the per-frame oracle on readers with and without history."""
+    cfg, lo, hi = task
+    p = core.Part()
+    from mc.props import C16
+    noises = [b""]
+    if lo == 0:
+        noises += [nz for _, nz in list(C16.long_noises("hdlc", True))[::37]][:12]
+    for label, fr in X.fcs_sweep_frames()[lo:hi]:
+        for nz in noises:
+            S = nz + b"\x7e" + RH.wire(fr, cfg[0]) + b"\x7e\x7e" + RH.wire(fr, cfg[0]) + b"\x7e"
+            for how, chunks in (("oneshot", [S]), ("fixed7", X.fixed(S, 7))) + ((("bytewise", X.bytewise(S)),) if not nz else ()):
+                errs, frames = X.exec_errors(cfg, S, chunks)
+                _account(p, frames)
+                p.add("events", len(chunks))
+                if frames and how == "oneshot":
+                    p.add("nontrivial")
+                # the last frame sent is intact and stands between its own flags: it must come back valid (C02/C16 clause,
+                # checked here too because 'valid exactly when intact' needs an intact frame to be returned at all)
+                if errs:
+                    _report(p, cfg, S, chunks, errs, f"{label} after {len(nz)} B of noise", how)
+        if p.full("valid"):
+            p.capped = True
+            break
+    return p
+
+
 def main(run: core.Run) -> int:
     q = run.quick
     run.rule = ("every string over the reduced octet alphabets / every token sequence up to the bound, and every stream "
@@ -272,6 +300,8 @@ def main(run: core.Run) -> int:
     run.merge(par.pmap(_work_e3, e3, seed=run.seed))
     run.merge(par.pmap(_work_long, [(cfg, cfg[0]) for cfg in X.CFGS], seed=run.seed))
     run.merge(par.pmap(_work_aligned, [(cfg,) for cfg in X.CFGS], seed=run.seed))
+    nsw = len(X.fcs_sweep_frames())
+    run.merge(par.pmap(_work_sweep, [(cfg, lo, lo + 50) for cfg in X.CFGS for lo in range(0, nsw, 50)], seed=run.seed))
     tot = run.total
     tot.sample({"cfg": "stuffing=1,abort=0", "input": "7e" + X.F7.hex() + "7e", "returned": [X.F7.hex()], "is_valid": [True]})
     tot.sample({"tokens": "F h10 i10 F", "input": (b"\x7e" + X.F10 + b"\x7e").hex(), "note": "flag octet inside the information field"})
